@@ -47,8 +47,8 @@ def reads_r2():
 def configs():
     C = []
 
-    def add(name, argv, layout="single", fmt="fastq", nreads=9, reads="std"):
-        C.append(dict(name=name, argv=argv, layout=layout, fmt=fmt, nreads=nreads, reads=reads))
+    def add(name, argv, layout="single", fmt="fastq", nreads=9, reads="std", thorough_only=False):
+        C.append(dict(name=name, argv=argv, layout=layout, fmt=fmt, nreads=nreads, reads=reads, thorough_only=thorough_only))
 
     add("single", ["-a", f"a1={A1}", "-o", "{d}/out.fq"])
     add("single-redirects", ["-a", f"a1={A1}", "-a", f"a2={A2}", "-m", "8", "-M", "30", "--too-short-output", "{d}/ts.fq",
@@ -72,6 +72,19 @@ def configs():
                           "-a", f"a1={A1}", "-o", "{d}/out.fq"])
     add("interleaved-fasta", ["--interleaved", "-a", f"a1={A1}", "-A", f"b2={A2}", "-o", "{d}/out.fa"], layout="interleaved", fmt="fasta")
     add("linked-revcomp", ["--revcomp", "-a", "lk=ACGT...GGGG", "-a", f"a2={A2}", "-o", "{d}/out.fq"], layout="single", reads="rc")
+    # further option sets, explored in the thorough tier only
+    add("t-nextseq-rename", ["--nextseq-trim", "10", "-q", "12", "-u", "1", "-a", f"a1={A1}", "--rename", "{{id}} {{adapter_name}} {{cut_prefix}}",
+                             "--length-tag", "length=", "-o", "{d}/out.fq"], thorough_only=True)
+    add("t-paired-U-Q-L", ["-U", "2", "-Q", "8", "-L", "12", "-u", "-1", "-a", f"a1={A1}", "-A", f"b2={A2}", "--max-aer", "0.2", "-o", "{d}/o1.fq",
+                           "-p", "{d}/o2.fq"], layout="paired", thorough_only=True)
+    add("t-paired-polya-toolong", ["--poly-a", "-a", f"a1={A1}", "-A", f"b2={A2}", "-M", "20:16", "--too-long-output", "{d}/tl1.fq",
+                                   "--too-long-paired-output", "{d}/tl2.fq", "--rest-file", "{d}/rest.txt", "-o", "{d}/o1.fq", "-p", "{d}/o2.fq"],
+        layout="paired", thorough_only=True)
+    add("t-retain-xz", ["-g", "f1=ACGTAC", "--action", "retain", "-o", "{d}/out.fastq.xz"], thorough_only=True)
+    add("t-fasta-paired-bz2", ["-a", f"a1={A1}", "-A", f"b2={A2}", "--trim-n", "-m", "5", "-o", "{d}/o1.fa.bz2", "-p", "{d}/o2.fa.bz2"],
+        layout="paired", fmt="fasta", thorough_only=True)
+    add("t-three-adapters-times3", ["-a", f"a1={A1}", "-g", "f1=ACGTAC", "-b", f"w2={A2}", "--times", "3", "--discard-trimmed",
+                                    "--info-file", "{d}/info.tsv", "-o", "{d}/out.fq"], thorough_only=True)
     add("fasta-input", ["-a", f"a1={A1}", "--action", "lowercase", "-o", "{d}/out.fa"], fmt="fasta")
     add("mask-rename", ["-g", "f1=ACGTAC", "-a", f"a1={A1}", "--action", "mask", "--times", "2",
                         "--rename", "{{id}} {{adapter_name}} {{comment}}", "-o", "{d}/out.fq"])
@@ -242,8 +255,9 @@ def phase2(job):
 
 
 def plan(tier):
-    names = [c["name"] for c in configs()]
-    ix = {n: i for i, n in enumerate(names)}
+    allc = configs()
+    ix = {c["name"]: i for i, c in enumerate(allc)}
+    names = [c["name"] for c in allc if tier == "thorough" or not c["thorough_only"]]
     T = []
     if tier == "quick":
         for n in ("single", "single-redirects", "paired"):
@@ -276,6 +290,8 @@ def free_running(tier):
     """Conformance pass: the same command lines as real OS processes; the outcome must be the one-core outcome."""
     jobs = []
     for ci, cfg in enumerate(configs()):
+        if cfg["thorough_only"] and tier != "thorough":
+            continue
         jobs.append((ci, 2, 3))
         if tier == "thorough":
             jobs.append((ci, 3, 4))
